@@ -53,12 +53,12 @@ def main(argv):
         sys.path.insert(0, core.REPO)
         mod = importlib.import_module(f"props.{prop.lower()}")
         if info["twin"] != "installed" and getattr(mod, "NEEDS_KERNEL", False):
-            ctx.lean = core.lean_check(prop, ctx.log)
+            ctx.lean = core.lean_check(prop, ctx.log, thorough=ctx.thorough)
             ctx.violation("tie:pyx-translator", None, {"file": info["pyx"]}, info["twin"], None,
                           "the kernel source must stay inside the Cython subset the translator understands "
                           "so that the model can be compared with it", no_input=True)
             return ctx.finish()
-        ctx.lean = core.lean_check(prop, ctx.log)
+        ctx.lean = core.lean_check(prop, ctx.log, thorough=ctx.thorough)
         if not ctx.lean["ok"]:
             ctx.log("[lean] NOT OK: " + ctx.lean["detail"][:2000])
         if hasattr(mod, "setup"):
